@@ -223,7 +223,11 @@ func ValidateLogConfig(cfg *configpb.LogConfig) (*ValidatedLogConfig, error) {
 		}
 		// Validate CTFEStorageConnectionString
 		if strings.HasPrefix(cfg.CtfeStorageConnectionString, "mysql") {
-			if _, err := mysql.ParseDSN(strings.Split(cfg.CtfeStorageConnectionString, "://")[1]); err != nil {
+			conn := strings.Split(cfg.CtfeStorageConnectionString, "://")
+			if len(conn) != 2 {
+				return nil, errors.New("failed to parse ctfe_storage_connection_string for mysql driver")
+			}
+			if _, err := mysql.ParseDSN(conn[1]); err != nil {
 				return nil, errors.New("failed to parse ctfe_storage_connection_string for mysql driver")
 			}
 		} else if strings.HasPrefix(cfg.CtfeStorageConnectionString, "postgres") {
@@ -251,7 +255,7 @@ type LogBackendMap = map[string]*configpb.LogBackend
 func BuildLogBackendMap(lbs *configpb.LogBackendSet) (LogBackendMap, error) {
 	lbm := make(LogBackendMap)
 	specs := make(map[string]bool)
-	for _, be := range lbs.Backend {
+	for _, be := range lbs.GetBackend() {
 		if len(be.Name) == 0 {
 			return nil, fmt.Errorf("empty backend name: %v", be)
 		}
@@ -341,7 +345,7 @@ func ValidateLogMultiConfig(cfg *configpb.LogMultiConfig) (LogBackendMap, error)
 
 	// Check that logs all reference a defined backend.
 	logIDMap := make(map[string]bool)
-	for _, logCfg := range cfg.LogConfigs.Config {
+	for _, logCfg := range cfg.GetLogConfigs().GetConfig() {
 		if _, ok := backendMap[logCfg.LogBackendName]; !ok {
 			return nil, fmt.Errorf("log config: references undefined backend: %s: %v", logCfg.LogBackendName, logCfg)
 		}
